@@ -9,7 +9,7 @@ import EngineModel.Api.GuardedV2
 import EngineModel.Db.V2Wf
 
 namespace EngineModel.Api.GuardedV2
-open EngineModel EngineModel.Db.Chain EngineModel.Db.V2 EngineModel.ListAux
+open EngineModel EngineModel.Db.Chain EngineModel.Db.V2 EngineModel.ListAux EngineModel.Gen
 
 set_option linter.unusedSimpArgs false
 
@@ -298,39 +298,197 @@ theorem descendantIdsG_eq (t : Table Bytes) (hf : forestOk t = true) (c : Int) :
     exact (List.all_eq_true.mp hf) r hr
   rw [filterG_eq _ (fun r => isAnc t c r.id) t hall]
 
+/-! ### the guarded walks with the source's own emptiness test -/
+
+theorem sortIdsG_eq (t : Table Bytes) (k : Int) : sortIdsG t k = walkBackG t k := by
+  unfold sortIdsG walkBackG C15Guards.v2_pl_sort_ids_empty
+  simp only
+  split
+  · rfl
+  · cases lookupNext (rowsOf t k) 0 <;> rfl
+theorem getForListG_eq (t : Table Ent) (k : Int) : getForListG t k = walkBackG t k := by
+  unfold getForListG walkBackG C15Guards.v2_pe_get_for_list_empty
+  simp only
+  split
+  · rfl
+  · cases lookupNext (rowsOf t k) 0 <;> rfl
+
+/-! ### the guarded step is the model's step on forests, and never `ub` -/
+
+theorem withDeref_some {β : Type} (d : Db) (a : β) (k : β → Db × Res Out) : withDeref d (some a) k = k a := rfl
+
+theorem plRemoveWith_eq (d : Db) (c : Int) : plRemoveWith d c (descendantIds d.pl c) = plRemove d c := rfl
+
+theorem peAddBackG_eq (d : Db) (l t u : Int) (f : Bool) : peAddBackG Guards.source d l t u f = peAddBack d l t u f := by
+  unfold peAddBackG peAddBack Guards.source C15Guards.v2_pe_add_back_existing
+  cases peFind d l t u with
+  | none => rfl
+  | some e => cases f <;> rfl
+
+theorem rmTrackInG_foldl (t : Int) (L : List Int) : ∀ pe : Table Ent,
+    L.foldl (rmTrackInG Guards.source t) (.ok pe) = .ok (L.foldl (rmTrackIn t) pe) := by
+  induction L with
+  | nil => intro pe; rfl
+  | cons l L ih =>
+    intro pe
+    simp only [List.foldl_cons]
+    have h1 : rmTrackInG Guards.source t (.ok pe) l = .ok (rmTrackIn t pe l) := by
+      unfold rmTrackInG rmTrackIn Guards.source C15Guards.v2_db_remove_track_found
+      simp only [Res.bind]
+      cases (pe.filter (fun r => r.key == l && r.val.track == t && r.val.uuid == 0)).getLast? <;> rfl
+    rw [h1]; exact ih _
+
+theorem setParentCheckG_none (d : Db) (c : Int) : setParentCheckG Guards.source d c none = .ok none := rfl
+
+theorem setParentCheckG_some (d : Db) (hf : forestOk d.pl = true) (c q : Int) :
+    setParentCheckG Guards.source d c (some q) =
+      .ok (if !plExists d q then some (exn "crate_deleted")
+           else if (descendantIds d.pl c).contains q then some (exn "crate_invalid_parent") else none) := by
+  unfold setParentCheckG Guards.source C15Guards.v2_crate_set_parent_given
+  simp only [Option.isSome_some, if_true, deref, Res.bind]
+  by_cases he : plExists d q = true
+  · simp only [he, Bool.not_true, Bool.false_eq_true, if_false, descendantIdsG_eq d.pl hf c, Res.bind]
+    split <;> rfl
+  · have he' : plExists d q = false := by simpa using he
+    simp only [he', Bool.not_false, if_true]
+
+/-- **The guarded step = the model's step** on a state whose parent links form a forest: no
+dereference meets an empty optional (the C++ guards, as regenerated from the source, suffice) and the
+recursive view is evaluated within its `|Playlist|` steps. -/
+theorem stepG_eq (d : Db) (hf : forestOk d.pl = true) (op : Op) : stepG d op = step d op := by
+  cases op with
+  | createRoot name => rfl
+  | createRootAfter name after =>
+    simp only [stepG, stepGW, step, Guards.source, C15Guards.v2_db_root_after_norow]
+    split
+    · rfl
+    · cases get d.pl after with
+      | none => rfl
+      | some a =>
+        simp only [Option.isSome_some, Bool.not_true, Bool.false_eq_true, if_false, withDeref_some]
+  | createSub p name => rfl
+  | createSubAfter p name after =>
+    simp only [stepG, stepGW, step, Guards.source, C15Guards.v2_crate_sub_after_norow]
+    split
+    · rfl
+    · split
+      · rfl
+      · cases get d.pl after with
+        | none => rfl
+        | some a =>
+          simp only [Option.isSome_some, Bool.not_true, Bool.false_eq_true, if_false, withDeref_some]
+  | rename c name =>
+    simp only [stepG, stepGW, step, Guards.source, C15Guards.v2_crate_set_name_norow]
+    cases get d.pl c with
+    | none => rfl
+    | some r => rfl
+  | setParent c p =>
+    cases p with
+    | none =>
+      simp only [stepG, stepGW, step, setParentCheckG_none]
+      simp only [Guards.source, C15Guards.v2_crate_set_parent_self, C15Guards.v2_crate_set_parent_norow,
+        C15Guards.v2_crate_set_parent_given2, Option.isSome_none, Bool.false_eq_true, if_false, Bool.false_and]
+      have : (none == some c) = false := rfl
+      simp only [this, Bool.false_eq_true, if_false]
+      cases get d.pl c with
+      | none => rfl
+      | some r => rfl
+    | some q =>
+      simp only [stepG, stepGW, step, setParentCheckG_some d hf c q]
+      simp only [Guards.source, C15Guards.v2_crate_set_parent_self, C15Guards.v2_crate_set_parent_norow,
+        C15Guards.v2_crate_set_parent_given2, Option.isSome_some, if_true, Bool.true_and, deref, Res.bind]
+      by_cases hqc : q = c
+      · subst hqc; simp
+      · have h1 : (q == c) = false := by simpa using hqc
+        have h2 : (some q == some c) = false := by simpa using hqc
+        simp only [h1, h2, Bool.false_eq_true, if_false]
+        cases get d.pl c with
+        | none => rfl
+        | some r =>
+          simp only [Option.isSome_some, Bool.not_true, Bool.false_eq_true, if_false]
+          by_cases he : plExists d q = true
+          · simp only [he, Bool.not_true, Bool.false_eq_true, if_false]
+            by_cases hc : (descendantIds d.pl c).contains q = true
+            · simp only [hc, if_true]
+            · have hc' : (descendantIds d.pl c).contains q = false := by simpa using hc
+              simp only [hc', Bool.false_eq_true, if_false, withDeref_some]
+          · have he' : plExists d q = false := by simpa using he
+            simp only [he', Bool.not_false, if_true]
+  | removeCrate c =>
+    simp only [stepG, stepGW, step, descendantIdsG_eq d.pl hf c, plRemoveWith_eq]
+  | createTrack => rfl
+  | removeTrack t => simp only [stepG, stepGW, step, rmTrackInG_foldl]
+  | addTrack c t => simp only [stepG, stepGW, step, peAddBackG_eq]
+  | removeTrackFrom c t =>
+    simp only [stepG, stepGW, step, Guards.source, C15Guards.v2_crate_remove_track_found]
+    cases peFind d c t 0 <;> rfl
+  | clearTracks c => rfl
+  | peAddBack l t uu f => simp only [stepG, stepGW, step, peAddBackG_eq]
+  | peRemove l e => rfl
+  | peClear l => rfl
+
+theorem stepG_defined (d : Db) (hf : forestOk d.pl = true) (op : Op) : Defined (stepG d op).2 := by
+  rw [stepG_eq d hf op]; exact step_defined d op
+
 /-! ### queries -/
+
+theorem bind_unit_defined {β} (r : Res β) (hr : Defined r) : Defined (r.bind fun _ => (Res.ok () : Res Unit)) := by
+  cases h : r with
+  | ok a => exact Defined.ok _
+  | throw e => exact Defined.throw _
+  | ub u => exact absurd h (hr u)
+
+theorem qNameG_eq (d : Db) (c : Int) : qNameG d c = qName d c := by
+  unfold qNameG qName C15Guards.v2_crate_name_norow
+  cases get d.pl c <;> rfl
+
+theorem qParentG_eq (d : Db) (c : Int) : qParentG d c = qParent d c := by
+  unfold qParentG qParent C15Guards.v2_crate_parent_norow
+  cases get d.pl c with
+  | none => rfl
+  | some r =>
+    simp only [Option.isSome_some, Bool.not_true, Bool.false_eq_true, if_false, deref, Res.bind]
+
+theorem qByParentNameG_eq (d : Db) (p : Int) (n : Bytes) : qByParentNameG d p n = .ok (qByParentName d p n) := by
+  unfold qByParentNameG qByParentName C15Guards.v2_db_root_by_name_none C15Guards.v2_crate_sub_by_name_none
+  cases findId d p n with
+  | none => simp
+  | some i => simp [deref, Res.bind]
 
 theorem queryG_defined (d : Db) {A B : Int → List Int} (hpl : R A d.pl) (hpe : R B d.pe)
     (hf : forestOk d.pl = true) (q : Query) : Defined (queryG d q) := by
-  have bindok : ∀ {β} (r : Res β), Defined r → Defined (r.bind fun _ => (Res.ok () : Res Unit)) := by
-    intro β r hr
-    cases h : r with
-    | ok a => exact Defined.ok _
-    | throw e => exact Defined.throw _
-    | ub u => exact absurd h (hr u)
   cases q with
   | crates => exact Defined.ok _
-  | roots => exact bindok _ (walkBackG_defined hpl 0)
-  | children c => exact bindok _ (walkBackG_defined hpl c)
+  | roots => exact bind_unit_defined _ (sortIdsG_eq d.pl 0 ▸ walkBackG_defined hpl 0)
+  | children c => exact bind_unit_defined _ (sortIdsG_eq d.pl c ▸ walkBackG_defined hpl c)
   | descendants c => simp only [queryG]; rw [descendantIdsG_eq d.pl hf c]; exact Defined.ok _
   | parent c =>
-    apply bindok
+    apply bind_unit_defined
+    rw [qParentG_eq]
     unfold qParent
     cases get d.pl c with
     | none => exact Defined.throw _
     | some r => simp only; split <;> exact Defined.ok _
   | name c =>
-    apply bindok
+    apply bind_unit_defined
+    rw [qNameG_eq]
     unfold qName
     cases get d.pl c with
     | none => exact Defined.throw _
     | some r => exact Defined.ok _
   | valid c => exact Defined.ok _
   | byName n => exact Defined.ok _
-  | byParentName p n => exact Defined.ok _
-  | tracks c => exact bindok _ (walkBackG_defined hpe c)
-  | entities l => exact bindok _ (walkBackG_defined hpe l)
+  | byParentName p n => simp only [queryG, qByParentNameG_eq]; exact Defined.ok _
+  | tracks c => exact bind_unit_defined _ (getForListG_eq d.pe c ▸ walkBackG_defined hpe c)
+  | entities l => exact bind_unit_defined _ (getForListG_eq d.pe l ▸ walkBackG_defined hpe l)
   | allTracks => exact Defined.ok _
+  | trackById t => exact Defined.ok _
+  | crateById c => exact Defined.ok _
+  | dbUuid => exact Defined.ok _
+  | dbVersionName => exact Defined.ok _
+  | dbDirectory => exact Defined.ok _
+  | dbVerify => exact Defined.ok _
+  | crateDb c => exact Defined.ok _
 
 /-! ### removed crates are gone -/
 
